@@ -38,8 +38,10 @@ def scenario(b, variant):
     sc = {"url": url, "ws_kwargs": {"proxies": proxies},
           "conns": [{"net": list(b['script']['net']), "writes": list(b['script']['writes']), "steps": [{"kind": "eof"}]}],
           "connect_kwargs": {"ping_rate": 0, "close_timeout": None}}
-    if env is not None:
-        sc['env'] = env
+    if env is None:
+        # an explicit mapping - even an empty one - takes precedence over whatever the environment says
+        env = {'HTTP_PROXY': 'http://decoy-proxy.invalid:3128', 'HTTPS_PROXY': 'http://decoy-proxy.invalid:3128'}
+    sc['env'] = env
     if b['script']['reply'] != 'none':
         sc['conns'][0]['proxy_reply'] = {"cls": b['script']['reply'], "cut": b['script']['cut']}
     entry = b['entry']
@@ -54,7 +56,7 @@ def run(tier, seed):
     r = pipeline.Run('C19', tier, seed)
     r.rule = ('every behaviour of spec/Proxy.tla: 4 targets (ws/wss, default/explicit port) x 6 proxy mappings (http only, https only, both, '
               'none, credentials, default ports) x proxy connect refused / CONNECT write error / 13 answer classes x 3 ways of cutting the answer '
-              'into reads, each with the mapping spelled with missing / None / empty entries and taken from HTTP_PROXY / HTTPS_PROXY in the environment; non-trivial = distinct behaviours that used a proxy')
+              'into reads, each with the mapping spelled with missing / None / empty entries and taken from HTTP_PROXY / HTTPS_PROXY in the environment (explicit mappings run with a decoy proxy in the environment); non-trivial = distinct behaviours that used a proxy')
     r.assumptions = ['Proxy-Authorization and other CONNECT headers are not constrained by C19', 'sockets on proxy failure paths are not required to be closed by C19']
     cfg = ("SPECIFICATION Spec\nCONSTANTS Targets <- MCTargets\n Mappings <- MCMappings\n ReplyClasses = {%s}\n Cuts <- MCCuts\n"
            "INVARIANT NothingBeforeTunnel\nINVARIANT ProxyOnlyWhenConfigured\nINVARIANT Emit\nCHECK_DEADLOCK FALSE\n"
